@@ -232,6 +232,14 @@ func c08Reuse(c *fw.Case) {
 				s[i] = byte(r.Pick(0x00, 0x0d, 0x40, 0x7f, 0x20))
 			}
 		}
+		if r.Chance(1, 40) {
+			// a source below 4096 octets whose text is above: the fixed buffers of transform.Writer / transform.Reader
+			l = r.Range(2049, 2600)
+			s = make([]byte, l)
+			for i := range s {
+				s[i] = byte(r.Pick(0x10, 0x12, 0x13, 0x14, 0x15, 0x16, 0x17, 0x18, 0x19)) // Greek capitals: two octets of UTF-8 each
+			}
+		}
 		refused := r.Chance(1, 3)
 		if refused {
 			// after a decodable prefix: ESC + a code outside the extension table, or a dangling ESC at the end
@@ -324,7 +332,10 @@ func c08Reuse(c *fw.Case) {
 			}) {
 				return
 			}
-			if e3 != nil || e4 != nil || encString != string(want) || !bytes.Equal(encReader, want) {
+			// transform.Reader holds the source in a 4096-octet buffer: a longer message is refused there ("short source
+			// buffer"), which is an honest answer; a different text with a nil error is not
+			readerRefusal := e4 != nil && len(text) >= 4096
+			if e3 != nil || (e4 != nil && !readerRefusal) || encString != string(want) || (e4 == nil && !bytes.Equal(encReader, want)) {
 				c.Failf("entrypoints-disagree/encoder-streams", "message %d (%s), text %q (%d octets of UTF-8), packed=%v: reference %s, String = (%s, %v), transform.Reader = (%s, %v)",
 					m, pat, text, len(text), packedMode == 1, hx(want), hx([]byte(encString)), e3, hx(encReader), e4)
 				return
@@ -346,34 +357,53 @@ func c08Reuse(c *fw.Case) {
 			if cap(app) >= len(app) {
 				c08Live.scratch = app[:cap(app)] // keep recycling the same (now dirty) buffer
 			}
-			// a destination that is too small is reported, and the retry with room gives the same octets
+			// a destination that is too small: whatever is handed out now plus what the following call hands out is the
+			// message (a transformer may write nothing and say ErrShortDst, or hand the result out in pieces)
 			if len(want) > 1 {
 				small := dirty(r, r.Intn(len(want)))
 				var e2 error
-				var n2 int
+				var n2, n3 int
 				try1(c, "Encoder.Transform short dst", []byte(text), func() { n2, _, e2 = c08Live.enc[packedMode].Transform(small, []byte(text), true) })
-				if e2 == nil && !bytes.Equal(small[:n2], want) {
-					c.Failf("reused-encoder-short-dst", "Transform into %d octets (needs %d) returned no error and %s", len(small), len(want), hx(small[:n2]))
+				if e2 == nil {
+					c.Failf("reused-encoder-short-dst", "Transform into %d octets (needs %d) returned no error (%s)", len(small), len(want), hx(small[:n2]))
 					return
 				}
 				big := dirty(r, len(want)+4)
-				try1(c, "Encoder.Transform retry", []byte(text), func() { n2, _, e2 = c08Live.enc[packedMode].Transform(big, []byte(text), true) })
-				if e2 != nil || !bytes.Equal(big[:n2], want) {
-					c.Failf("entrypoints-disagree/reused-encoder-retry", "message %d (%s): the retry after a short destination gives (%s, %v), reference %s", m, pat, hx(big[:n2]), e2, hx(want))
+				try1(c, "Encoder.Transform retry", []byte(text), func() { n3, _, e2 = c08Live.enc[packedMode].Transform(big, []byte(text), true) })
+				if got := append(append([]byte(nil), small[:n2]...), big[:n3]...); e2 != nil || !bytes.Equal(got, want) {
+					c.Failf("entrypoints-disagree/reused-encoder-retry", "message %d (%s): a short destination (%d octets handed out) and the following call (%d octets) give (%s, %v), reference %s", m, pat, n2, n3, hx(got), e2, hx(want))
 					return
 				}
 			}
 		}
 		if decodable {
-			// the same for the decoder: short destination, then the retry
+			// the same for the decoder
 			small := dirty(r, r.Intn(len(text)+1))
-			var n2 int
+			var n2, n3 int
 			var e2 error
 			try1(c, "Decoder.Transform short dst", wire, func() { n2, _, e2 = c08Live.dec[packedMode].Transform(small, append([]byte(nil), wire...), true) })
-			big := dirty(r, len(text)+8)
-			try1(c, "Decoder.Transform retry", wire, func() { n2, _, e2 = c08Live.dec[packedMode].Transform(big, append([]byte(nil), wire...), true) })
-			if !(packedMode == 1 && ref.EndAmbiguous(s)) && (e2 != nil || string(big[:n2]) != text) {
-				c.Failf("entrypoints-disagree/reused-decoder-retry", "message %d (%s): the retry after a short destination decodes %s as (%q, %v), reference %q", m, pat, hx(wire), big[:n2], e2, text)
+			got := append([]byte(nil), small[:n2]...)
+			if e2 != nil {
+				big := dirty(r, len(text)+8)
+				try1(c, "Decoder.Transform retry", wire, func() { n3, _, e2 = c08Live.dec[packedMode].Transform(big, append([]byte(nil), wire...), true) })
+				got = append(got, big[:n3]...)
+			}
+			if !(packedMode == 1 && ref.EndAmbiguous(s)) && (e2 != nil || string(got) != text) {
+				c.Failf("entrypoints-disagree/reused-decoder-retry", "message %d (%s): a short destination and the following call decode %s as (%q, %v), reference %q", m, pat, hx(wire), got, e2, text)
+				return
+			}
+			// the fixed-buffer driver: transform.Writer (4096-octet buffers, Close must return)
+			var wbuf bytes.Buffer
+			var werr, cerr error
+			if !try1(c, "transform.Writer(Decoder)", wire, func() {
+				w := transform.NewWriter(&wbuf, c08Live.dec[packedMode])
+				_, werr = w.Write(append([]byte(nil), wire...))
+				cerr = w.Close()
+			}) {
+				return
+			}
+			if !(packedMode == 1 && ref.EndAmbiguous(s)) && (werr != nil || cerr != nil || wbuf.String() != text) {
+				c.Failf("entrypoints-disagree/decoder-writer", "message %d (%s): transform.Writer over the decoder gives (%q, write err %v, close err %v), reference %q; input %s", m, pat, wbuf.Bytes(), werr, cerr, text, hx(wire))
 				return
 			}
 		}
